@@ -63,7 +63,7 @@ func (g *Gen) tplClosureExit() []L.Stmt {
 	declare(local1(saved, tbl()))
 	sv := name(saved)
 	capture := g.n(5, "capture")
-	exit := g.n(12, "exit")
+	exit := g.n(14, "exit")
 	g.class("closure:capture" + strconv.Itoa(capture) + ":exit" + strconv.Itoa(exit))
 	// the statements that create the closures, given the exit statement to run after them
 	create := func(v string, exitStmt []L.Stmt) []L.Stmt {
@@ -135,6 +135,35 @@ func (g *Gen) tplClosureExit() []L.Stmt {
 			declare(local1("li", num(0)))
 			out = append(out, &L.RepeatStmt{Body: blk(append([]L.Stmt{assign1(name("li"), bin("+", name("li"), num(1))), local1("done", bin(">=", name("li"), num(3)))}, body...)...), Cond: name("done")})
 		}
+	case 12, 13: // the scope is left by falling past an exit that is not taken: its last statement is an if whose last arm ends in
+		// return / break / goto, and control gets behind it through the other arm
+		var last L.Stmt
+		lbl := g.fresh("L")
+		ut := g.n(5, "untaken")
+		if ut == 2 && exit == 13 {
+			ut = 0 // (no loop to break out of)
+		}
+		switch ut {
+		case 0:
+			last = ifs(bin(">", name("li"), num(5)), blk(ret(str("never"))), nil)
+		case 1:
+			last = ifs(bin("<", name("li"), num(5)), blk(assign1(name("li"), name("li"))), blk(ret(str("never"))))
+		case 2:
+			last = ifs(bin(">", name("li"), num(5)), blk(&L.BreakStmt{}), nil)
+		case 3:
+			last = &L.IfStmt{Conds: []L.Expr{bin(">", name("li"), num(7)), bin(">", name("li"), num(5))}, Blocks: []*L.Block{blk(emit(str("never"))), blk(ret(str("never")))}}
+		default:
+			last = ifs(bin(">", name("li"), num(5)), blk(&L.GotoStmt{Label: lbl}), nil)
+		}
+		g.class("closure:scope_ends_in_untaken_exit")
+		body := nest(create(v, []L.Stmt{last}))
+		if exit == 12 {
+			out = append(out, &L.NumForStmt{Var: "li", Start: num(1), End: num(3), Body: blk(body...)})
+		} else {
+			declare(local1("li", num(0)))
+			out = append(out, assign1(name("li"), num(1)), &L.DoStmt{Body: blk(body...)})
+		}
+		out = append(out, &L.LabelStmt{Name: lbl}, &L.DoStmt{Body: blk()})
 	case 2: // loop variable itself captured, loop runs to completion
 		out = append(out, &L.NumForStmt{Var: v, Start: num(1), End: num(3), Body: blk(closurePair(sv, v)...)})
 	case 3: // generic for variables captured
@@ -198,8 +227,18 @@ func (g *Gen) tplClosureExit() []L.Stmt {
 		}
 	case 9: // coroutine suspended with open upvalues, resumed later
 		body := fn(nil, false, blk(create(v, []L.Stmt{callStmt(call(field(name("coroutine"), "yield"), str("y1"))), assign1(name(v), str("after yield")), ret(str("co done"))})...))
+		var rargs []L.Expr
+		if g.n(2, "varargbody") == 0 {
+			// a ... body resumed with arguments, ending by running off its end right after a call statement: the captured
+			// locals are the highest registers in use when the coroutine ends
+			g.class("closure:coroutine_vararg_body_runs_off_its_end")
+			body = fn(nil, true, blk(create(v, []L.Stmt{callStmt(call(field(name("coroutine"), "yield"), str("y1"))), assign1(name(v), str("after yield")), emit(str("co body ends"), call(name("select"), str("#"), &L.VarargExpr{}))})...))
+			for i, n := 0, g.n(5, "nresumeargs"); i < n; i++ {
+				rargs = append(rargs, num(float64(i+1)))
+			}
+		}
 		co := g.fresh("co")
-		out = append(out, local1(co, call(field(name("coroutine"), "create"), body)), emit(call(field(name("coroutine"), "resume"), name(co))))
+		out = append(out, local1(co, call(field(name("coroutine"), "create"), body)), emit(call(field(name("coroutine"), "resume"), append([]L.Expr{name(co)}, rargs...)...)))
 		out = append(out, g.noise()...)
 		out = append(out, useSaved(saved)...)
 		out = append(out, emit(call(field(name("coroutine"), "resume"), name(co))))
